@@ -15,11 +15,11 @@ func init() {
 
 // HexSumOf: v == fmt.Sprintf("%x", H.Sum(nil)) → the hash value H (receiver of Sum).
 func HexSumOf(v ssa.Value) (ssa.Value, bool) {
-	f, args, ok := SprintfCall(v)
-	if !ok || f != "%x" || len(args) != 1 || args[0] == nil {
+	hx, ok := HexOf(v)
+	if !ok {
 		return nil, false
 	}
-	sum, ok := Resolve1(args[0]).(*ssa.Call)
+	sum, ok := Resolve1(stripIface(hx)).(*ssa.Call)
 	if !ok || bareName(CalleeName(sum.Common())) != "Sum" || !sum.Common().IsInvoke() || !IsNilConst(sum.Common().Args[0]) {
 		return nil, false
 	}
@@ -230,6 +230,30 @@ func runC03(r *R) {
 			for _, ret := range Returns(fn) {
 				succ, _ := IsSuccessReturn(ret)
 				if !succ {
+					// `return err` with a merged / variable error: it may be nil only on paths that compared the digest
+					d := returnDirect(ret, ret.Results[len(ret.Results)-1])
+					sentinel := func(v ssa.Value) bool {
+						_, isG := LoadedGlobal(stripIface(v))
+						return isG || definitelyNonNilErr(v)
+					}
+					okVar := true
+					if phi, isPhi := d.(*ssa.Phi); isPhi {
+						n++
+						for k, e := range phi.Edges {
+							if sentinel(e) {
+								continue
+							}
+							ev := e
+							if !GuardLeaf(fn, phi, k, ret, hcrSumEq(), NeqC("err != nil", func(x ssa.Value) bool { return Strip(x) == Strip(ev) }, NilV)) {
+								okVar = false
+							}
+						}
+						r.Check(okVar, "C03-R3", fn, name+": return err (merged)", ret.Pos(), "nil only on paths where digest == Check", name+" can return a nil error without the digest matching")
+					} else if _, isC := d.(*ssa.Const); !isC && !sentinel(d) {
+						dv := d
+						ok := GuardOrPass(fn, nil, ret, nil, hcrSumEq(), NeqC("err != nil", func(x ssa.Value) bool { return Strip(x) == Strip(dv) }, NilV))
+						r.Check(ok, "C03-R3", fn, name+": return err", ret.Pos(), "non-nil, or digest == Check", name+" can return a nil error without the digest matching")
+					}
 					continue
 				}
 				n++
